@@ -50,6 +50,8 @@ DRIVER_IMPORTS = ["CnfgenModel.Vars.GenGlue"]
 DRIVER_CALLS = {
     # BaseCNF._check_and_update on a list of integers: ValueError iff it contains 0
     ("CNFLinear", "self_check_and_update"): "(fun ls => if ls.contains 0 then Except.error Err.valueError else Except.ok ())",
+    # int(sqrt(a)): the exact integer square root (CPython's float computation agrees as long as a < 2^52)
+    (None, "float_isqrt"): "Py.isqrt",
 }
 
 # objects that the translated code only constructs and sends commands to: (constructor arguments, log of commands)
@@ -80,13 +82,13 @@ EFFECTS = {
         "methods": {
             "number_of_variables": {"lean": "PyF.number_of_variables", "params": [], "ret": INT, "raises": False},
             "update_variable_number": {"lean": "PyF.update_variable_number", "params": [("new_value", INT)], "ret": None, "raises": True},
-            "add_clause": {"lean": "PyF.add_clause", "params": [("clause", TList(INT)), ("check", BOOL, True)], "ret": None, "raises": True},
-            "add_linear": {"lean": "PyF.add_linear", "params": [("lits", TList(INT)), ("op", STR), ("constant", INT), ("check", BOOL, True)], "ret": None, "raises": True},
-            "cardinality_eq": {"lean": "PyF.cardinality_eq", "params": [("lits", TList(INT)), ("value", INT), ("check", BOOL, True)], "ret": None, "raises": True},
-            "cardinality_leq": {"lean": "PyF.cardinality_leq", "params": [("lits", TList(INT)), ("value", INT), ("check", BOOL, True)], "ret": None, "raises": True},
-            "cardinality_geq": {"lean": "PyF.cardinality_geq", "params": [("lits", TList(INT)), ("value", INT), ("check", BOOL, True)], "ret": None, "raises": True},
-            "cardinality_neq": {"lean": "PyF.cardinality_neq", "params": [("lits", TList(INT)), ("value", INT), ("check", BOOL, True)], "ret": None, "raises": True},
-            "add_parity": {"lean": "PyF.add_parity", "params": [("lits", TList(INT)), ("constant", INT), ("check", BOOL, True)], "ret": None, "raises": True},
+            "add_clause": {"lean": "PyF.add_clause", "nested_valueerror": True, "params": [("clause", TList(INT)), ("check", BOOL, True)], "ret": None, "raises": True},
+            "add_linear": {"lean": "PyF.add_linear", "nested_valueerror": True, "params": [("lits", TList(INT)), ("op", STR), ("constant", INT), ("check", BOOL, True)], "ret": None, "raises": True},
+            "cardinality_eq": {"lean": "PyF.cardinality_eq", "nested_valueerror": True, "params": [("lits", TList(INT)), ("value", INT), ("check", BOOL, True)], "ret": None, "raises": True},
+            "cardinality_leq": {"lean": "PyF.cardinality_leq", "nested_valueerror": True, "params": [("lits", TList(INT)), ("value", INT), ("check", BOOL, True)], "ret": None, "raises": True},
+            "cardinality_geq": {"lean": "PyF.cardinality_geq", "nested_valueerror": True, "params": [("lits", TList(INT)), ("value", INT), ("check", BOOL, True)], "ret": None, "raises": True},
+            "cardinality_neq": {"lean": "PyF.cardinality_neq", "nested_valueerror": True, "params": [("lits", TList(INT)), ("value", INT), ("check", BOOL, True)], "ret": None, "raises": True},
+            "add_parity": {"lean": "PyF.add_parity", "nested_valueerror": True, "params": [("lits", TList(INT)), ("constant", INT), ("check", BOOL, True)], "ret": None, "raises": True},
             "add_loose_majority": _lits_check("add_loose_majority"),
             "add_loose_minority": _lits_check("add_loose_minority"),
             "add_strict_majority": _lits_check("add_strict_majority"),
@@ -211,6 +213,8 @@ ITEMS = [
      "params": {"value": INT, "name": STR}},
     {"file": "cnfgen/localtypes.py", "function": "positive_int", "property": "C01",
      "params": {"value": INT, "name": STR}},
+    {"file": "cnfgen/localtypes.py", "function": "positive_int_seq", "property": "C03",
+     "params": {"value": TList(INT), "name": STR}},
     # VariablesManager: group creation and the force_*_mapping builders, one typed variant per group class.
     # `f.parent_formula() != F` is assumed false (the families pass the groups they created on this formula).
     {"file": VARS, "class": "VariablesManager", "property": "C01", "self_effect": "Formula", "self_alias": ["_formula"],
@@ -242,4 +246,8 @@ ITEMS = [
      "params": {"G": TAbs("AbsBipGraph"), "functional": BOOL, "onto": BOOL, "formula_class": TEffectClass("Formula")}},
     {"file": "cnfgen/families/pebbling.py", "function": "PebblingFormula", "property": "C03",
      "params": {"digraph": TAbs("AbsDiGraph"), "formula_class": TEffectClass("Formula")}},
+    {"file": "cnfgen/families/ramsey.py", "function": "VanDerWaerden", "property": "C03",
+     "params": {"N": INT, "k1": INT, "k2": INT, "ks": TList(INT), "formula_class": TEffectClass("Formula")}, "vararg": "ks"},
+    {"file": "cnfgen/families/ramsey.py", "function": "PythagoreanTriples", "property": "C03",
+     "params": {"N": INT, "formula_class": TEffectClass("Formula")}},
 ]
